@@ -25,7 +25,7 @@ import numpy as np
 
 PROPERTY = "C09"
 LEVEL = "translation_validation"
-N_ROWS = 129
+N_ROWS = 257
 
 
 # ------------------------------------------------------------------ neutralised twins
@@ -232,6 +232,9 @@ def hostile(rng, name, typ, n, pool):
         v = np.where((u >= 0.5) & (u < 0.6), v - 0.01, v)
         g = gen_values(rng, name, float, n, base)
         return np.where(u >= 0.75, g, v).astype(float)
+    if typ is int and ("anz_" in name or name.startswith("anz") or "kinder" in name):
+        # counts: small numbers, every combination of 0 / 1 / 2 / 3 matters for bracket conditions
+        return rng.choice([0, 0, 0, 1, 1, 2, 2, 3, 4, 5, 6, 10], n).astype(np.int64)
     if typ is int:
         g = gen_values(rng, name, int, n, pool)
         lits = np.array([int(x) for x in pool if float(x).is_integer() and abs(x) < 3000] or [0])
@@ -365,6 +368,10 @@ class Gen:
         if d >= 2 or r < 0.5:
             if self.r.random() < 0.3:
                 return str(self.r.choice(self.BV))
+            if self.r.random() < 0.04:
+                self.features.add("chained_comparison")
+                return (f"{self.fexpr(d + 1)} {self.r.choice(['<', '<='])} {self.fexpr(d + 1)} "
+                        f"{self.r.choice(['<', '<='])} {self.fexpr(d + 1)}")
             return f"{self.fexpr(d + 1)} {self.r.choice(['<', '<=', '>', '>=', '==', '!='])} {self.fexpr(d + 1)}"
         if r < 0.72:
             op = str(self.r.choice(["and", "or"]))
